@@ -261,3 +261,76 @@ func VxC17PageMap() {
 		}
 	}
 }
+
+// vxSinkStaging is a staging file that keeps page numbers only (see vxPageSink);
+// the name exists in the file system so that the publish step has a file to rename.
+type vxSinkStaging struct {
+	*vxPageSink
+}
+
+func (s vxSinkStaging) Sync() error  { return nil }
+func (s vxSinkStaging) Close() error { return nil }
+
+// VxC17SyncAcross: the real DB.sync taking a snapshot of a database that grows
+// across the lock page within this one sync: the database file ends just before
+// the lock page and the pages beyond it (never the lock page itself, which SQLite
+// does not write) are in the WAL. The sync succeeds and publishes every page but
+// the lock page, in order.
+func VxC17SyncAcross() {
+	ps := vxPageSizes[vx.Param("PSI", 7)]
+	lock := ltx.LockPgno(uint32(ps))
+	filePages := lock - 1 - uint32(vx.Choose("fileEndsBeforeLock", 0, 1))
+	commit := lock + uint32(vx.Choose("pagesBeyondLock", 0, 2))
+	dir := vx.TempDir()
+	dbPath := dir + "/big.db"
+	vx.FSSparseFile(dbPath, int64(filePages)*int64(ps))
+	g := vxGen{salt1: 100, salt2: 200}
+	for pg := filePages + 1; pg <= commit; pg++ {
+		if pg == lock {
+			continue
+		}
+		g.frames = append(g.frames, vxFrame{pgno: pg, tag: uint64(pg)})
+	}
+	if len(g.frames) == 0 {
+		// nothing beyond the file but the lock page: the transaction rewrote page 1
+		g.frames = append(g.frames, vxFrame{pgno: 1, tag: 1})
+	}
+	g.frames[len(g.frames)-1].commit = commit
+	vx.FSWriteFile(dbPath+"-wal", vxWALImageOf(ps, []vxGen{g}))
+	db := NewDB(dbPath)
+	db.pageSize = ps
+	f, err := os.Open(dbPath)
+	if err != nil {
+		panic(err)
+	}
+	db.f = f
+	defer f.Close()
+	vx.FSMkdirAll(db.LTXLevelDir(0))
+	sink := &vxPageSink{}
+	db.openLTXFile = func(name string, flag int, perm os.FileMode) (ltxStagingFile, error) {
+		vx.FSWriteFile(name, nil)
+		return vxSinkStaging{sink}, nil
+	}
+	exec := &syncExecutor{}
+	info := syncInfo{offset: WALHeaderSize, salt1: 100, salt2: 200, snapshotting: true}
+	res, err := db.syncReal(context.Background(), false, exec, info, 0)
+	vx.Assert("snapshot-across-the-lock-page-succeeds", err == nil && res.synced)
+	if err != nil {
+		return
+	}
+	ok := len(sink.pgnos) >= int(commit)-1
+	next := uint32(1)
+	for _, pg := range sink.pgnos {
+		if pg == 0 {
+			break // end-of-pages marker
+		}
+		if next == lock {
+			next++
+		}
+		if pg != next {
+			ok = false
+		}
+		next++
+	}
+	vx.Assert("every-page-but-the-lock-page-in-order", ok && next == commit+1 || (ok && commit == lock && next == lock))
+}
